@@ -332,6 +332,15 @@ def hier_build(s, variant, skip):
                 drive(mk_, lambda: Not(b, 'nm', t, mk_))
                 drive(zk_, lambda: Constant(b, 'cz', 3, zk_))
             D.Box(s, 'blk%d' % k, {'a': a, 'u': u}, {'m': mk_, 'z': zk_}, bodyk)
+    if variant == 'samename':
+        # a block whose two input ports carry two DIFFERENT wires that share their short name (one per parent scope)
+        mn = s.wire('mn', 2)
+
+        def bodyn(b):
+            la = b.wire('a', 2)
+            drive(la, lambda: Constant(b, 'cla', 1, la))
+            drive(mn, lambda: And2(b, 'and', la, a, mn))
+        D.Box(s, 'gate', {'a': a}, {'mn': mn}, bodyn)
     if variant == 'scope':
         Probe(s, 'probe', z)                                   # z is read only by a leaf that is not a primitive (no sink is registered)
     drive(o, lambda: mkbuf(s, 'bo', m, o))                       # o is attached to no port when this is left out
@@ -420,7 +429,7 @@ def tasks_for(tier):
             continue
         t.append(('construction API, history starting with op%d parent%d name %s wire%d' % (f[0], f[1], POOL[f[2]], f[3]), construct_task,
                   {'template': 'flat', 'first': f}))
-    for v in ('plain', 'nested', 'scope', 'twins'):
+    for v in ('plain', 'nested', 'scope', 'twins', 'samename'):
         t.append(('integrity of a structural hierarchy (%s), one removed driver at a symbolic position' % v, hier_task, {'variant': v}))
     for drv in list(DRIVERS)[1:]:
         t.append(('construction API, template flat, one operation, drivers are %s' % drv, construct_task, {'template': 'flat', 'first': None, 'driver': drv}))
